@@ -191,7 +191,8 @@ Definition enc (p : macpl) : outcome (list N) :=
     Ok [N.lor delay (shl8 limit 4)]
   | PForceRejoinReq period maxretries rjtype dr =>
     if 7 <? period then Err else if 7 <? maxretries then Err else
-    if negb (rjtype =? 0) && negb (rjtype =? 2) then Err else
+    (* after the fix: RejoinType 0, 1 (both: Rejoin-request type 0) and 2 are accepted *)
+    if 2 <? rjtype then Err else
     if 15 <? dr then Err else
     Ok [N.lor dr (shl8 rjtype 4); N.lor maxretries (shl8 period 3)]
   | PRejoinParamSetupReq maxtime maxcount =>
@@ -218,7 +219,10 @@ Definition dec (k : kind) (data : list N) : outcome macpl :=
                       (N.shiftr (N.land (d 3%nat) 112) 4) (N.land (d 3%nat) 15))
     else Err
   | KLinkADRAns => want 1%nat (PLinkADRAns (tbit (d 0%nat) 0) (tbit (d 0%nat) 1) (tbit (d 0%nat) 2))
-  | KDutyCycleReq => want 1%nat (PDutyCycleReq (d 0%nat))
+  | KDutyCycleReq =>
+    (* after the fix: bits 7..4 are RFU and ignored; the whole-octet value 255 of
+       LoRaWAN 1.0 / 1.0.1 ("device off"), which the encoder accepts, is kept *)
+    want 1%nat (PDutyCycleReq (if d 0%nat =? 255 then 255 else N.land (d 0%nat) 15))
   | KRXParamSetupReq =>
     let '(optneg, rx2, rx1) := dec_dlsettings (d 0%nat) in
     want 4%nat (PRXParamSetupReq ((le_val (firstn 3 (skipn 1 data)) * 100) mod 2 ^ 32) optneg rx2 rx1)
